@@ -80,10 +80,31 @@ type Env struct {
 	Server   netip.AddrPort
 	started  []shadowsocks.Service
 	cancel   context.CancelFunc
+	port6    uint16 // source port of a client that moved to ::1
 	Tunnel   netip.AddrPort
 	Upstream netip.AddrPort // address of the harness upstream proxy (outgoing clients other than direct)
 	// Collector is the real statistics collector the UDP relays record into.
 	Collector stats.Collector
+}
+
+// freePort returns a port at or after base on which a socket can be bound at host right now.  Wildcard
+// listeners cannot use the per-process 127.A.B.x addresses that keep parallel workers apart, so their port
+// is derived from the pid, kept below the kernel's ephemeral range (any socket of any process that happens to
+// hold the same port would make the bind fail), and probed.  Observations show it as ":wport".
+func freePort(network, host string, base int) uint16 {
+	for p := base; p < base+500; p++ {
+		a, err := net.ResolveUDPAddr(network, fmt.Sprintf("%s:%d", host, p))
+		if err != nil {
+			continue
+		}
+		c, err := net.ListenUDP(network, a)
+		if err != nil {
+			continue
+		}
+		c.Close()
+		return uint16(p)
+	}
+	panic("udpenv: no free port")
 }
 
 // IP returns 127.A.B.last.
@@ -97,11 +118,11 @@ func New(sp Spec) (*Env, error) {
 	listen := e.Server.String()
 	network := "udp4"
 	if sp.Wildcard {
-		e.Server = netip.AddrPortFrom(e.IP(1), uint16(10000+pid%50000))
+		e.Server = netip.AddrPortFrom(e.IP(1), freePort("udp4", "0.0.0.0", 10000+pid%10000))
 		listen = fmt.Sprintf("0.0.0.0:%d", e.Server.Port())
 	}
 	if sp.DualStack {
-		e.Server = netip.AddrPortFrom(e.IP(1), uint16(10000+pid%50000))
+		e.Server = netip.AddrPortFrom(e.IP(1), freePort("udp", "[::]", 10000+pid%10000))
 		listen = fmt.Sprintf("[::]:%d", e.Server.Port())
 		network = "udp"
 	}
@@ -294,7 +315,8 @@ func (c *Client) Rebind(port uint16) {
 // listener must be dual-stack.
 func (c *Client) RebindV6() {
 	vudp.UDP_Close(c.Sock)
-	c.Addr = netip.AddrPortFrom(netip.IPv6Loopback(), uint16(20000+os.Getpid()%40000))
+	c.Addr = netip.AddrPortFrom(netip.IPv6Loopback(), freePort("udp6", "[::1]", 20000+os.Getpid()%10000))
+	c.e.port6 = c.Addr.Port()
 	c.Sock = vudp.Listen(c.Addr.String(), c.Name+"v6")
 	c.Via = netip.AddrPortFrom(netip.IPv6Loopback(), c.e.Server.Port())
 }
@@ -327,7 +349,9 @@ func (c *Client) SendRaw(b []byte) error {
 func (e *Env) Canon(s string) string {
 	if e.Spec.Wildcard || e.Spec.DualStack {
 		s = strings.ReplaceAll(s, fmt.Sprintf(":%d", e.Server.Port()), ":wport")
-		s = strings.ReplaceAll(s, fmt.Sprintf(":%d", 20000+os.Getpid()%40000), ":cport6")
+		if e.port6 != 0 {
+			s = strings.ReplaceAll(s, fmt.Sprintf(":%d", e.port6), ":cport6")
+		}
 	}
 	return strings.ReplaceAll(s, fmt.Sprintf("127.%d.%d.", e.A, e.B), "127.a.b.")
 }
